@@ -51,8 +51,8 @@ def all_trees(n_atoms, depth):
     return [t for t in pool if t[0] != "atom"]
 
 
-def size(t):
-    return 0 if t[0] == "atom" else 1 + sum(size(x) for x in t[1:])
+def tree_size(t):
+    return 0 if t[0] == "atom" else 1 + sum(tree_size(x) for x in t[1:])
 
 
 def depth(t):
@@ -158,5 +158,25 @@ def max_atom(t):
 
 
 def replay(obj):
-    print(obj["replay"])
-    return 0
+    r = obj["replay"]
+    if "tree" in r:
+        tree = tuple_tree(r["tree"])
+        case = {"atoms": max_atom(tree) + 1, "trees": [tree]}
+        rec = engine.run_cases("misc", "run_c04_trees", [case], jobs=1)[0]
+        import misc
+        desc, sub = misc.tree_to_desc(tree, case["atoms"])
+        bad = None
+        for res in rec["meta"]["results"]:
+            for nid, st in sub:
+                got = res["states"].get(nid, res["states"].get(str(nid)))
+                if got != KN[kleene(st, res["val"])]:
+                    bad = {"formula": str(st), "inputs": res["val"], "got": got}
+    else:
+        case = streams.deser(r["case"])
+        for k in ("A", "B", "op"):
+            case[k] = tuple(case[k])
+        rec = engine.run_cases("misc", "run_c04_duals", [case], jobs=1)[0]
+        res = rec["meta"]["res"]
+        bad = next(({"direction": d} for d in ("up", "down") if res[f"direct:{d}"] != res[f"dual:{d}"]), None)
+    print("REPRODUCED" if bad else "not reproduced", bad)
+    return 1 if bad else 0
